@@ -272,14 +272,18 @@ func (c *cfgFloat) toUint(*options) (uint64, error) {
 	if c.f < 0 {
 		return 0, ErrNegative
 	}
-	if c.f > math.MaxUint64 {
+	// float64(math.MaxUint64) rounds up to 2^64, which does not fit; the
+	// negated comparison also rejects NaN.
+	if !(c.f < 1<<64) {
 		return 0, ErrOverflow
 	}
 	return uint64(c.f), nil
 }
 
 func (c *cfgFloat) toInt(*options) (int64, error) {
-	if c.f < math.MinInt64 || math.MaxInt64 < c.f {
+	// float64(math.MaxInt64) rounds up to 2^63, which does not fit; the
+	// negated comparison also rejects NaN.
+	if !(c.f >= -(1<<63) && c.f < 1<<63) {
 		return 0, ErrOverflow
 	}
 	return int64(c.f), nil
